@@ -79,6 +79,9 @@ class BuiltinMixin:
         elif isinstance(c, PyList) and all(isinstance(k, PyC) and isinstance(k.obj, type) for k in c.items):
             classes = [k.obj for k in c.items]
         if classes is not None:
+            exact = self.exact_class.get(lx.t) if lx.sort == "V" else None
+            if exact is not None:
+                return [(st, PyC(any(issubclass(exact, k) for k in classes)))]
             return [(st, mkB(isinstance_any_term(asV(lx), classes, self.ctab)))]
         lc = self.lift(c)
         return [(st, mkB(f"(py_isinstance {asV(lx)} {asV(lc)})"))]
